@@ -444,15 +444,13 @@ func opString(o *gen.Op) string {
 }
 
 func variantClass(name string) string {
-	if name == "kill" || name == "durable" {
-		return name
-	}
 	parts := strings.Split(name, "/")
-	if len(parts) < 3 {
-		return name
+	for i, p := range parts {
+		if j := strings.IndexByte(p, ':'); j >= 0 {
+			parts[i] = p[:j]
+		}
 	}
-	p := strings.TrimRight(parts[1], "0123456789abcdef")
-	return strings.TrimRight(parts[0], "0123456789") + "/" + p + "/" + parts[2]
+	return strings.Join(parts, "/")
 }
 
 // checkRecovery opens the image, judges the recovered state, runs the
@@ -499,6 +497,20 @@ func (e *Engine) checkRecovery(wl *Workload, pt *Point, v simfs.Variant, img *si
 		c.Distinct("c03_nontrivial", imgHash)
 	}
 
+	// C02's non-triviality: before recovery, the tail holds non-zero bytes beyond
+	// the point where a plain frame scan stops, or a torn subset of the in-flight batch
+	if tn := tailName(metaBefore); tn != "" {
+		if off := recoveredEnd(img, tn); off >= 0 && img.StaleBytesAfter(tn, off) {
+			c.Count("images_with_bytes_beyond_frame_scan_before_open", 1)
+			c.Distinct("c02_nontrivial", imgHash)
+		}
+	}
+	if pt.InFlight != nil && pt.InFlight.Kind == "append" && len(pend.Pieces) > 0 && !v.Kill &&
+		!strings.Contains(v.Name, "/none/") && !strings.Contains(v.Name, "/all/") {
+		c.Count("images_with_torn_inflight_batch", 1)
+		c.Distinct("c02_nontrivial", imgHash)
+	}
+
 	if err := s.open(); err != nil {
 		e.report(&failure{props: []string{"C03", "C01"}, class: "open-failed:" + errClass(err),
 			desc: fmt.Sprintf("Open failed on a crash image (%s, variant %s, in-flight %s): %v", pt.Call, v.Name, opString(pt.InFlight), err)}, replay(nil))
@@ -540,14 +552,6 @@ func (e *Engine) checkRecovery(wl *Workload, pt *Point, v simfs.Variant, img *si
 	if orphans > 0 {
 		c.Count("orphans_swept_checks", 1)
 	}
-	// stale bytes statistic (C02's non-triviality)
-	if tn := tailName(img.MetaSnapshot()); tn != "" {
-		if off := recoveredEnd(img, tn); off >= 0 && img.StaleBytesAfter(tn, off) {
-			c.Count("images_with_stale_bytes_behind_tail", 1)
-			c.Distinct("c02_nontrivial", imgHash)
-		}
-	}
-
 	// continuation (C03): the recovered WAL must be fully usable
 	l := match.Clone()
 	rs.base.Store(l)
@@ -654,6 +658,42 @@ func (e *Engine) continuation(wl *Workload, s *session, l *model.Log, pt *Point,
 		next = []uint64{1, 7, l.Last + 1, 1 << 33}[rng.Intn(4)]
 		if next == 0 {
 			next = 1
+		}
+	}
+	// C02 chains: re-submit a prefix of the torn in-flight batch, as raft does after
+	// a restart, so the rest of its stale frames sit right behind the new commit.
+	if e.P.RetryPrefix && pt.InFlight != nil && pt.InFlight.Kind == "append" && len(pt.InFlight.Logs) > 0 &&
+		((l.Empty() && true) || pt.InFlight.Logs[0].Index == l.Last+1) && rng.Intn(4) != 0 {
+		n := len(pt.InFlight.Logs)
+		k := 1 + rng.Intn(n)
+		var logs []*raft.Log
+		for _, lg := range pt.InFlight.Logs[:k] {
+			c := model.CopyLog(lg)
+			c.Term += 100 // same encoded size for small terms, different identity
+			logs = append(logs, c)
+		}
+		if f := step(gen.Op{Kind: "append", Logs: logs}); f != nil {
+			return f
+		}
+		e.C.Count("retry_prefix_continuations", 1)
+		next = l.Last + 1
+		if f := compare("after retry of torn batch"); f != nil {
+			return f
+		}
+		// a clean reopen right here re-scans the tail with the stale frames behind it
+		rs.base.Store(l)
+		rs.inflight.Store(nil)
+		s.close()
+		rs.base.Store(nil)
+		cands := l.DropTrailingUnacked()
+		rs.outer.Store(&cands)
+		if err := s.open(); err != nil {
+			return &failure{props: []string{"C03", "C01", "C02"}, class: "cont-reopen-after-retry:" + errClass(err), desc: "clean reopen after retrying a torn batch failed: " + err.Error()}
+		}
+		rs.base.Store(l)
+		rs.phase.Store("cont")
+		if f := compare("after reopen following retry of torn batch"); f != nil {
+			return f
 		}
 	}
 	// enough appended bytes to fill the segment at least once for small geometries
